@@ -110,7 +110,10 @@ def dds_hash(x: Any) -> PyHash:
         if isinstance(elt, float):
             return _algo_bytes(struct.pack("!d", elt))
         if isinstance(elt, int):
-            return _algo_bytes(struct.pack("!l", elt))
+            if -(2 ** 31) <= elt < 2 ** 31:
+                return _algo_bytes(struct.pack("!l", elt))
+            # Does not fit the 4-byte encoding (kept as is for the existing signatures): hash the tagged decimal form.
+            return _algo_str("__DDS_BIGINT__" + str(elt))
         if isinstance(elt, CanonicalPath):
             return _algo_str(repr(elt))
         if isinstance(elt, list):
